@@ -82,7 +82,31 @@ class Hist:
             rec = self._other_recipe or gen.network(gen.rng_for("other", self.rng.random()), size=1, genes=2)
             self._other = gen.build(rec)
             self._other.id = "other"
+            # the right-hand model of merges is not always tidy: an orphan metabolite (its
+            # empty mass balance must not travel as a "custom constraint") and sometimes a
+            # genuine custom constraint + variable (documented to be copied)
+            import cobra
+
+            orng = gen.rng_for("other-extras", rec.get("seed", 0) if isinstance(rec, dict) else 0, len(rec["rxns"]))
+            if orng.random() < 0.6:
+                self._other.add_metabolites([cobra.Metabolite("orph_c", compartment="c")])
+            if orng.random() < 0.4 and len(self._other.reactions) >= 2:
+                r1, r2 = self._other.reactions[0], self._other.reactions[1]
+                v = self._other.problem.Variable("other_custom_var", lb=0, ub=7)
+                c = self._other.problem.Constraint(r1.flux_expression + r2.flux_expression - v, lb=-50, ub=50, name="other_custom_con")
+                self._other.add_cons_vars([v, c])
         return self._other
+
+    def other_custom_names(self):
+        """Names of the right-hand model's explicit (non-FBA) variables and constraints."""
+        o = self.other()
+        o.solver.update()
+        cols = {v.name for v in o.solver.variables}
+        rows = {c.name for c in o.solver.constraints}
+        for r in o.reactions:
+            cols -= {r.id, r.reverse_id}
+        rows -= {m.id for m in o.metabolites}
+        return cols, rows
 
     def names_now(self):
         s = self.model.solver
@@ -241,6 +265,65 @@ def _(H):
         desc["free_algebra"] = sorted(hw for _e, hw in expected.values())
     H.model.add_reactions(rs)
     return desc
+
+
+@op("model.add_reactions.failing", "edit", "rev", "fail", weight=0.5)
+def _(H):
+    # an identifier the solver interface refuses (whitespace), alone or after / before a
+    # valid reaction: the call raises, nothing may be left half done
+    taken = sorted(H.ledger["cols"] & {v.name for v in H.model.solver.variables})
+    if taken and H.rng.random() < 0.5:
+        bad = _new_reaction(H, rid=H.rng.choice(taken))  # name of a variable the user added
+    else:
+        bad = _new_reaction(H, rid=H.fresh("bad ") + " id")
+    q = H.rng.random()
+    rs = [bad] if q < 0.4 else ([_new_reaction(H), bad] if q < 0.7 else [bad, _new_reaction(H)])
+    H.model.add_reactions(rs)
+    return {"ids": _ids(rs)}
+
+
+@op("model.add_metabolites.failing", "edit", "rev", "fail", weight=0.5)
+def _(H):
+    import cobra
+
+    bad = cobra.Metabolite(H.fresh("bad ") + " met_c", compartment="c")
+    good = cobra.Metabolite(H.fresh("nm") + "_c", compartment="c")
+    q = H.rng.random()
+    ms = [bad] if q < 0.4 else ([good, bad] if q < 0.7 else [bad, good])
+    H.model.add_metabolites(ms)
+    return {"ids": _ids(ms)}
+
+
+@op("reaction.id=.failing", "edit", "fail", weight=0.4)
+def _(H):
+    r = H.rxn()
+    q = H.rng.random()
+    if q < 0.6:
+        r.id = H.fresh("bad ") + " id"  # refused by the solver interface
+    elif q < 0.8:
+        o = H.rxn()
+        if o is r:
+            raise Skip()
+        r.id = o.id  # taken
+    else:
+        r.id = 7  # not a string
+    return {"id": r.id}
+
+
+@op("metabolite.id=.failing", "edit", "fail", weight=0.4)
+def _(H):
+    m = H.met()
+    q = H.rng.random()
+    if q < 0.6:
+        m.id = H.fresh("bad ") + " met_c"
+    elif q < 0.8:
+        o = H.met()
+        if o is m:
+            raise Skip()
+        m.id = o.id
+    else:
+        m.id = 7
+    return {"id": m.id}
 
 
 @op("model.add_boundary", "edit", "rev", weight=1.5)
@@ -501,7 +584,17 @@ def _(H):
     d = {}
     if len(H.model.metabolites):
         d[H.met()] = H.coef()
-    d["no_such_metabolite"] = 1.0  # KeyError in the middle / at the end
+    q = H.rng.random()
+    if q < 0.6:
+        d["no_such_metabolite"] = 1.0  # KeyError in the middle / at the end
+    elif q < 0.8:
+        import cobra
+
+        d[cobra.Metabolite("")] = 1.0  # object with an empty identifier: ValueError
+    else:
+        import cobra
+
+        d[cobra.Metabolite(H.fresh("bad ") + " met_c", compartment="c")] = 1.0  # refused by the solver interface
     if len(H.model.metabolites) and H.rng.random() < 0.5:
         d[H.met().id] = H.coef()
     r.add_metabolites(d, combine=H.rng.random() < 0.5)
@@ -951,8 +1044,11 @@ def _(H):
         H.entered = []
         H.spare_rxns, H.spare_mets = [], []
     # "Custom constraints and variables from right models are also copied" (docstring):
-    # explicit additions, for the in-place and the copying form alike
-    H.track_added(before)
+    # explicit additions, for the in-place and the copying form alike - exactly the right
+    # model's non-FBA variables and constraints, nothing else (not its mass balances)
+    ocols, orows = H.other_custom_names()
+    H.ledger["cols"] |= ocols
+    H.ledger["rows"] |= orows
     return {"prefix": prefix, "inplace": inplace, "objective": objective, "right_reactions": _ids(other.reactions)}
 
 
